@@ -177,6 +177,11 @@ func (pp c08) Run(c *core.Ctx, idx int) {
 		o.Aug = true
 		o.Choices = true
 	}
+	if idx%2 == 1 {
+		// module name and prefix differ: a path segment is qualified with the module NAME
+		o.Prefix = "pm"
+	}
+	o.Sub = idx%5 == 1 // some top-level nodes written in a submodule: "m:name" qualifies them like the module's own
 	o.KeyTypes = []string{"string", "int32", "int64", "uint8", "uint32", "enumeration", "boolean", "int8", "uint16", "uint64", "int16", "identityref", "decimal64"}
 	// the data of every 8th case (and of four fixed ones) lives in Go maps, slices and structs behind nodeutil.Reflect / nodeutil.Node
 	goFixture := idx >= 3 && idx <= 6
@@ -273,6 +278,9 @@ func (pp c08) Run(c *core.Ctx, idx int) {
 	if useGo {
 		dp.DropEmptyLists(t)
 	}
+	if s.SubName != "" {
+		c.Count("schemas_with_submodule")
+	}
 	pristine := t.Clone()
 	store := dp.NewStore(s, t)
 	useJSON := idx%4 == 2 && !useGo
@@ -299,7 +307,7 @@ func (pp c08) Run(c *core.Ctx, idx int) {
 			return node.NewBrowser(s.Mod, n)
 		}
 	}
-	wit := func() string { return "schema:\n" + s.Yang() + "tree:\n" + t.Dump(s) }
+	wit := func() string { return "schema:\n" + s.Yang() + s.SubYang() + "tree:\n" + t.Dump(s) }
 	c.SetSample(map[string]interface{}{"yang": head(s.Yang(), 1200), "tree": head(t.Dump(s), 1200)})
 
 	paths := t.AllPaths()
@@ -503,6 +511,27 @@ func (pp c08) Run(c *core.Ctx, idx int) {
 					if err != nil {
 						c.Violate("absent-key-error/"+storeName, "Find(%q) returned %v; an absent key is 'no selection', not an error\n%s", path, err, wit())
 					}
+				}
+			}
+		}
+		if r.Intn(4) == 0 && s.AugName == "" {
+			// the right identifier qualified with a module that does not exist names nothing
+			wp := spell(s, p[:len(p)-1], 0)
+			if wp != "" {
+				wp += "/"
+			}
+			lastSeg := spell(s, p[len(p)-1:], 0)
+			path := wp + "zz-no-such-module:" + lastSeg
+			c.Eval()
+			var sel *node.Selection
+			var err error
+			if !c.Guard("Find wrong module "+path, func() { sel, err = b.Root().Find(path) }) {
+				if sel != nil || err == nil || !errors.Is(err, fc.NotFoundError) {
+					lvl := "nested"
+					if len(p) == 1 {
+						lvl = "top"
+					}
+					c.Violate("unknown-module/"+lvl+"/"+storeName, "Find(%q) = %v, %v; want a not-found error (no module zz-no-such-module)\n%s", path, sel, err, wit())
 				}
 			}
 		}
